@@ -317,7 +317,7 @@ func (w *World) makeClients() {
 			}
 		}
 	}()
-	mk("web", op.ApplicationTypeWeb, oidc.AuthMethodBasic, []string{"https://web.sim/callback", "https://web.sim/cb2?tenant=a", "https://web.sim/cb3?tenant=emea&tenant=apac&mode=sso"})
+	mk("web", op.ApplicationTypeWeb, oidc.AuthMethodBasic, []string{"https://web.sim/callback", "https://web.sim/cb2?tenant=a", "https://web.sim/cb3?tenant=emea&tenant=apac&mode=sso", "https://web.sim/a-registered-last"})
 	mk("post", op.ApplicationTypeWeb, oidc.AuthMethodPost, []string{"https://post.sim/callback"})
 	mk("pub", op.ApplicationTypeUserAgent, oidc.AuthMethodNone, []string{"https://pub.sim/callback"})
 	mk("native", op.ApplicationTypeNative, oidc.AuthMethodNone, []string{"http://localhost/callback", "com.example.app:/cb"})
